@@ -109,7 +109,23 @@ func checkLayoutSiblings(p *Program, r *Report, rule string) {
 			}
 		})
 		if len(nl.stores["from"]) == 0 {
-			continue
+			// a locator that RETURNS the start offset instead of storing it into a session: a function
+			// with an integer result that branches on its ordinal being below Slim.BigInnerCnt
+			isLoc := false
+			for _, b := range f.Blocks {
+				if iff, ok := lastInstr(b).(*ssa.If); ok {
+					if t := e.eval(iff.Cond).String(); strings.HasPrefix(t, "cmp:<(") && strings.HasSuffix(t, ",Slim.BigInnerCnt)") {
+						isLoc = true
+						nl.ith = strings.TrimSuffix(strings.TrimPrefix(t, "cmp:<("), ",Slim.BigInnerCnt)")
+					}
+				}
+			}
+			if !isLoc || f.Signature.Results().Len() != 1 || !isIntType(f.Signature.Results().At(0).Type()) {
+				continue
+			}
+			for _, ret := range returnsOf(f) {
+				nl.stores["from"] = append(nl.stores["from"], e.eval(ret.Results[0]).String())
+			}
 		}
 		// guards and word loads of the function
 		for _, b := range f.Blocks {
@@ -119,7 +135,7 @@ func checkLayoutSiblings(p *Program, r *Report, rule string) {
 		}
 		// the ordinal symbol: from = 257*X on the big branch
 		for _, t := range nl.stores["from"] {
-			if strings.HasPrefix(t, "mul(257,") {
+			if strings.HasPrefix(t, "mul(257,") && nl.ith == "" {
 				nl.ith = strings.TrimSuffix(strings.TrimPrefix(t, "mul(257,"), ")")
 			}
 		}
@@ -568,8 +584,10 @@ func binopIval(p *Program, x *ssa.BinOp, a, b ival) ival {
 	return typeRange(x.Type(), p.Sizes)
 }
 
-func checkLabelRange(p *Program, r *Report) {
-	r.Rule("C01.labelrange", "intervals", "query byte -> label index covers exactly [1,2^w] for w=4,8 and 0 for an exhausted key", 1)
+func checkLabelRange(p *Program, r *Report) { checkLabelRangeAs(p, r, "C01.labelrange") }
+
+func checkLabelRangeAs(p *Program, r *Report, rule string) {
+	r.Rule(rule, "intervals", "query byte -> label index covers exactly [1,2^w] for w=4,8 and 0 for an exhausted key", 1)
 	kif := keyIndexFuncs(p)
 	if len(kif) == 0 {
 		r.Unk("label index function", "", "no function indexes the key of a query session")
